@@ -148,10 +148,19 @@ def assumptions(prop_id, names, workdir):
         name, _, rest = b.partition('\n')
         axioms = []
         if 'Closed under the global context' not in rest:
+            # Coq prints "name : type" on one line, or "name" alone followed by an indented "  : type"
+            in_axioms = False
             for line in rest.split('\n'):
-                m = re.match(r'^([A-Za-z_][\w.\']*)\s*:\s*\S', line)
-                if m and m.group(1) != 'Axioms':
+                if line.startswith('Axioms:'):
+                    in_axioms = True
+                    continue
+                if not in_axioms or not line or line[0].isspace():
+                    continue
+                m = re.match(r"^([A-Za-z_][\w.']*)\s*(:|$)", line)
+                if m:
                     axioms.append(m.group(1))
+                else:
+                    axioms.append('UNPARSED:' + line[:60])
         res[name.strip()] = axioms
     return res, p.stdout
 
